@@ -18,6 +18,10 @@ import dns.zone
 
 import lib
 
+# resolve every implemented class once, IN first, so that dns.rdata.get_rdata_class never caches
+# GenericRdata for a type depending on the order of the cases (integrator note)
+dns.rdata.load_all_types(False)
+
 IN = dns.rdataclass.IN
 CH = dns.rdataclass.CH
 ORIGIN = dns.name.from_text("example.")
